@@ -63,9 +63,17 @@ type Term struct {
 	name   string // OpVar, OpArrVar, OpUF
 	hi, lo int    // OpExtract; OpArrVar: hi = element width
 	id     int
+	rngSt  int8 // 0 not computed, 1 known bound, 2 no bound
+	rngHi  uint64
+}
+
+type memoKey struct {
+	op   int
+	a, b int
 }
 
 type TermTable struct {
+	memo map[memoKey]*Term
 	tab  map[string]*Term
 	next int
 	tt   *Term
@@ -73,7 +81,7 @@ type TermTable struct {
 }
 
 func NewTermTable() *TermTable {
-	t := &TermTable{tab: map[string]*Term{}}
+	t := &TermTable{tab: map[string]*Term{}, memo: map[memoKey]*Term{}}
 	t.tt = t.mk(&Term{op: OpConst, w: 0, val: 1})
 	t.ff = t.mk(&Term{op: OpConst, w: 0, val: 0})
 	return t
@@ -273,6 +281,16 @@ func (tt *TermTable) Eq(a, b *Term) *Term {
 	if a == b {
 		return tt.tt
 	}
+	k := memoKey{1, a.id, b.id}
+	if r, ok := tt.memo[k]; ok {
+		return r
+	}
+	r := tt.eq(a, b)
+	tt.memo[k] = r
+	return r
+}
+
+func (tt *TermTable) eq(a, b *Term) *Term {
 	if a.w != b.w {
 		panic(fmt.Sprintf("Eq width mismatch %d vs %d: %s / %s", a.w, b.w, a, b))
 	}
@@ -506,6 +524,22 @@ func (tt *TermTable) BNot(a *Term) *Term {
 
 // rangeOf gives a cheap unsigned upper bound (inclusive) for a term, or ok=false.
 func rangeOf(t *Term) (uint64, bool) {
+	switch t.rngSt {
+	case 1:
+		return t.rngHi, true
+	case 2:
+		return 0, false
+	}
+	hi, ok := rangeOf1(t)
+	if ok {
+		t.rngSt, t.rngHi = 1, hi
+	} else {
+		t.rngSt = 2
+	}
+	return hi, ok
+}
+
+func rangeOf1(t *Term) (uint64, bool) {
 	switch t.op {
 	case OpConst:
 		if t.w <= 64 {
@@ -621,6 +655,16 @@ func (tt *TermTable) Extract(a *Term, hi, lo int) *Term {
 	if lo == 0 && hi == a.w-1 {
 		return a
 	}
+	k := memoKey{2, a.id, hi*1024 + lo}
+	if r, ok := tt.memo[k]; ok {
+		return r
+	}
+	r := tt.extract(a, hi, lo)
+	tt.memo[k] = r
+	return r
+}
+
+func (tt *TermTable) extract(a *Term, hi, lo int) *Term {
 	if hi < lo || hi >= a.w {
 		panic(fmt.Sprintf("bad extract [%d:%d] of width %d", hi, lo, a.w))
 	}
@@ -663,6 +707,16 @@ func (tt *TermTable) ZExt(a *Term, w int) *Term {
 	if w == a.w {
 		return a
 	}
+	k := memoKey{3, a.id, w}
+	if r, ok := tt.memo[k]; ok {
+		return r
+	}
+	r := tt.zext(a, w)
+	tt.memo[k] = r
+	return r
+}
+
+func (tt *TermTable) zext(a *Term, w int) *Term {
 	if w < a.w {
 		return tt.Extract(a, w-1, 0)
 	}
@@ -682,6 +736,16 @@ func (tt *TermTable) SExt(a *Term, w int) *Term {
 	if w == a.w {
 		return a
 	}
+	k := memoKey{4, a.id, w}
+	if r, ok := tt.memo[k]; ok {
+		return r
+	}
+	r := tt.sext(a, w)
+	tt.memo[k] = r
+	return r
+}
+
+func (tt *TermTable) sext(a *Term, w int) *Term {
 	if w < a.w {
 		return tt.Extract(a, w-1, 0)
 	}
